@@ -3,6 +3,7 @@ package main
 import (
 	"fmt"
 	"os"
+	"sort"
 )
 
 var c04Pkgs = []pkgRef{
@@ -42,6 +43,36 @@ func init() {
 			}
 			c.fns["npm/maven/pypi (*resolver).Resolve and everything reachable; (*LocalClient) Version/Versions/Requirements/MatchingVersions (frame conditions)"] = true
 			rs := OwnershipObligations(prog)
+			// per function: "every write site of this function (as reached from the entry points) is fresh".
+			// A write site added to a function whose sites were all discharged fails this obligation.
+			type agg struct{ n, bad int }
+			per := map[string]*agg{}
+			var names []string
+			for _, r := range rs {
+				if r.Kind != "frame" && r.Kind != "frame-memo" {
+					continue
+				}
+				a := per[r.Func]
+				if a == nil {
+					a = &agg{}
+					per[r.Func] = a
+					names = append(names, r.Func)
+				}
+				a.n++
+				if r.Status != "proved" {
+					a.bad++
+				}
+			}
+			sort.Strings(names)
+			for _, n := range names {
+				a := per[n]
+				o := OblResult{Name: n + "#frame:every write site of the function is fresh", Kind: "frame-function", Func: n, Status: "proved", Solver: "ownership analysis (points-to over go/ssa)", Site: fmt.Sprintf("%d write sites", a.n)}
+				if a.bad > 0 {
+					o.Status = "failed"
+					o.Detail = fmt.Sprintf("%d of %d write sites may reach shared memory", a.bad, a.n)
+				}
+				rs = append(rs, o)
+			}
 			for i := range rs {
 				rs[i].Order = i
 			}
@@ -57,6 +88,19 @@ func init() {
 		Assume: []string{
 			"frame condition decides the property: if Resolve and the client methods write only memory allocated during the call, the client reports the same afterwards, earlier calls cannot matter, and concurrent calls have no conflicting access to shared client memory",
 			"insertion-order independence of the client contents (C14/C12 territory) is not part of this check",
+		},
+	}
+	propDefs["C19"] = &PropDef{
+		ID: "C19",
+		Pkgs: []pkgRef{
+			{"util/resolve", "deps.dev/util/resolve/internal/attr"},
+			{"util/resolve", "deps.dev/util/resolve/dep"},
+			{"util/resolve", "deps.dev/util/resolve/version"},
+		},
+		Trusted: []string{"bit operations on machine words are axiomatised over mathematical integers (bv.bit, and/or/xor/andnot, pow2, lowest set bit, extensionality); bits.TrailingZeros64 is the lowest set bit"},
+		Assume: []string{
+			"the order and clone clauses are decided; the text round trip (deptest/versiontest ParseString/String, strconv.Quote) is not covered",
+			"range over a map is modelled with an arbitrary order and a ghost set of visited keys",
 		},
 	}
 	propDefs["C14"] = &PropDef{
